@@ -174,7 +174,7 @@ def run_check(spec, tier="quick", replay=None):
     pid = spec.pid
     sd = core.seed()
     rng = random.Random(sd * 1000003 + sum(ord(c) for c in pid))
-    ctx = {"tier": tier, "seed": sd, "violations": [], "notes": [], "driver_ok": True}
+    ctx = {"tier": tier, "seed": sd, "violations": [], "notes": [], "driver_ok": True, "proof_broken": []}
     violations = ctx["violations"]       # list of dict(kind, msg, payload, signature)
     proof_broken = []
 
@@ -230,6 +230,8 @@ def run_check(spec, tier="quick", replay=None):
         for m, o in lc_bad:
             proof_broken.append({"file": m, "line": 0, "decl": "leanchecker", "msg": o[-500:]})
 
+    ctx["proof_broken"] = proof_broken
+    ctx["build_ok"] = ok
     # 4-6. correspondence + oracles
     suite_results = []
     if replay is None:
@@ -364,6 +366,8 @@ def run_check(spec, tier="quick", replay=None):
     }
     if "extract" in ctx:
         cov["extracted_tables"] = ctx["extract"]
+    for k, v in ctx.get("extra_coverage", {}).items():
+        cov[k] = v
     ev = {"property_id": pid, "tier": tier, "seed": sd, "level": spec.level, "coverage": cov,
           "assumptions": list(spec.assumptions), "wall_s": round(time.time() - t_start, 2),
           "violations": len(reported)}
